@@ -58,7 +58,16 @@ func (s *simStore) Kind() string { return "ffldb+goleveldb on simfs" }
 // closeAbandoned closes a store whose disk is frozen so that its goroutines
 // end; a close that hangs (goleveldb keeps its writer lock after some failed
 // flushes) is abandoned after simulated time.
-func closeAbandoned(r *simkit.Run, db database.DB) {
+func closeAbandoned(r *simkit.Run, db database.DB, hungCall bool) {
+	if hungCall {
+		// an abandoned call still holds the store's close lock: Close would
+		// wait on a mutex, which the simulated clock cannot time out
+		r.Probe("crashed-store-not-closed-after-hung-call")
+		ffldb.VerifAbandon(db)
+		time.Sleep(time.Second)
+		ffldb.VerifForget(db)
+		return
+	}
 	done := make(chan struct{})
 	go func() {
 		defer func() { recover(); close(done) }()
@@ -70,6 +79,39 @@ func closeAbandoned(r *simkit.Run, db database.DB) {
 		r.Probe("crashed-store-close-hung-abandoned")
 	}
 	ffldb.VerifForget(db)
+}
+
+// abandonable runs f; once the disk is frozen a call that does not return
+// within simulated minutes is abandoned (goleveldb keeps its writer lock after
+// some failed commits, so the dead "process" can hang in its next write).  It
+// reports whether f returned.
+func abandonable(r *simkit.Run, fs *simfs.FS, f func()) bool {
+	done := make(chan struct{})
+	var pv any
+	go func() {
+		defer func() {
+			pv = recover() // re-raised on the run's own goroutine
+			close(done)
+		}()
+		f()
+	}()
+	waited := 0
+	for {
+		select {
+		case <-done:
+			if pv != nil {
+				panic(pv)
+			}
+			return true
+		case <-time.After(time.Minute):
+			if fs.Frozen() {
+				if waited++; waited >= 10 {
+					r.Probe("call-on-crashed-store-hung-abandoned")
+					return false
+				}
+			}
+		}
+	}
 }
 
 // runDiskCrash is configuration (B) of DESIGN §5 C04: the node runs on real
@@ -109,11 +151,15 @@ func runDiskCrash(r *simkit.Run, w *World, cfg NodeCfg) {
 	armed := false
 	frozen := false
 	var inflight *MBlock
+	hung := false
+	// bursts of blocks, or the steady state of a synced node in which the
+	// store's flush interval has elapsed before most blocks
+	pace := []int{150, 500, 950}[c.Intn(3, "pace")]
 	for i := 0; i < nblocks && !frozen; i++ {
 		parent := s.pickParent()
 		b := w.Build(parent, BlockOpts{NTx: c.Intn(4, "ntx")})
 		s.ensureClock(b)
-		if c.Bool(150, "advance") {
+		if c.Bool(pace, "advance") {
 			s.Advance([]time.Duration{time.Second, 2 * time.Minute, 6 * time.Minute}[c.Intn(3, "adv")])
 		}
 		if i == crashAt {
@@ -131,7 +177,7 @@ func runDiskCrash(r *simkit.Run, w *World, cfg NodeCfg) {
 		// expected once the disk is frozen)
 		var isOrph bool
 		var err error
-		func() {
+		returned := abandonable(r, fs, func() {
 			defer func() {
 				// once the disk is frozen the "process" is dead: whatever
 				// the abandoned call still does (including a panic on a read
@@ -145,7 +191,11 @@ func runDiskCrash(r *simkit.Run, w *World, cfg NodeCfg) {
 				}
 			}()
 			_, isOrph, err = n.Chain.ProcessBlock(btcutilBlock(b), 0)
-		}()
+		})
+		if !returned {
+			hung = true
+			err = fmt.Errorf("call abandoned on the frozen disk")
+		}
 		if fs.Frozen() {
 			frozen = true
 			inflight = b
@@ -163,14 +213,14 @@ func runDiskCrash(r *simkit.Run, w *World, cfg NodeCfg) {
 		r.Event("deliver", "%v -> tip %v", b, n.Tip())
 		s.CheckState("deliver")
 		if c.Bool(120, "utxo-flush") {
-			func() {
+			hung = !abandonable(r, fs, func() {
 				defer func() {
 					if p := recover(); p != nil && !fs.Frozen() {
 						panic(p)
 					}
 				}()
 				n.Chain.FlushUtxoCache(0)
-			}()
+			})
 			if fs.Frozen() {
 				frozen = true
 				r.Event("disk-crash", "during FlushUtxoCache")
@@ -188,7 +238,7 @@ func runDiskCrash(r *simkit.Run, w *World, cfg NodeCfg) {
 	flushesDone := ffldb.VerifFlushCount(st.db)
 	everActive := n.EverActive
 	finalModelTip := n.top()
-	closeAbandoned(r, st.db)
+	closeAbandoned(r, st.db, hung)
 	n.Chain = nil
 
 	pick := func(k int, tag string) int { return c.Intn(k, "img-"+tag) }
